@@ -1,6 +1,7 @@
 package bcheck
 
 import (
+	"reflect"
 	"bytes"
 	"fmt"
 	"os"
@@ -22,7 +23,7 @@ import (
 func init() {
 	Registry["C06"] = &Check{
 		Scenarios: c06Scenarios,
-		Rule: "histories: a retained first message M1 (one per slice-backed representation: Address IPv4 / IPv6 / other family, undefined AVP, IPv4, IPv6, OctetString, UTF8String, a grouped AVP containing each, nested groups; and one AVP of every declared type carrying payloads of 15 unexpected lengths / shapes, i.e. the lenient decode paths) followed by every sequence of <=3 further reads drawn from {same size with other content, larger but pooled, larger than the 1 KiB pooled buffer} x {same reader, another reader}; the pool shim reuses buffers deterministically (LIFO), so nothing depends on sync.Pool's luck; the same with the exported tuning variable diam.MessageBufferLength raised to 4096 and retained payloads of 1000..3000 bytes. schedules: two connections served by the real reader loops, a handler that retains the first message of connection A, a concurrent writer; Pool.Get is an explored choice (any pooled buffer, or a fresh one); every schedule up to preemption bound 2 (thorough: 4 on all fifteen retained shapes). Oracle: Serialize() bytes and String() of M1 taken when the reader returned it equal those taken at quiescence.",
+		Rule: "histories: a retained first message M1 (one per slice-backed representation: Address IPv4 / IPv6 / other family, undefined AVP, IPv4, IPv6, OctetString, UTF8String, a grouped AVP containing each, nested groups; and one AVP of every declared type carrying payloads of 15 unexpected lengths / shapes, i.e. the lenient decode paths) followed by every sequence of <=3 further reads drawn from {same size with other content, larger but pooled, larger than the 1 KiB pooled buffer} x {same reader, another reader}; the pool shim reuses buffers deterministically (LIFO), so nothing depends on sync.Pool's luck; the same with the exported tuning variable diam.MessageBufferLength raised to 4096 and retained payloads of 1000..3000 bytes. schedules: two connections served by the real reader loops, a handler that retains the first message of connection A, a concurrent writer; Pool.Get is an explored choice (any pooled buffer, or a fresh one); every schedule up to preemption bound 2 (thorough: 4 on all fifteen retained shapes). Oracle: Serialize() bytes and String() of M1 taken when the reader returned it equal those taken at quiescence. Plus: M1 is unmarshalled into a struct and two later messages of the same shape are unmarshalled into the SAME struct value (field shapes *diam.AVP, diam.AVP, []*diam.AVP, the datatype, a pointer to it; 8 data types).",
 		Assume: []string{"data-race freedom between visible operations (audited separately with -race)", "sync.Pool is modelled as: Get returns any previously Put object or allocates"},
 		QuickBudget: 100, ThoroughBudget: 1500,
 	}
@@ -232,6 +233,7 @@ func c06Scenarios(tier string) []*Scenario {
 		bound, _ = strconv.Atoi(v)
 	}
 	out := []*Scenario{{Name: "histories", Seq: func(r *SeqResult) { c06Histories(r, tier == "thorough") }},
+		{Name: "histories/unmarshal-into-a-reused-struct", Seq: c06Unmarshal},
 		{Name: "histories/MessageBufferLength=4096", Seq: c06BigBuffer}}
 	names, wires := c06Firsts()
 	for i, n := range names {
@@ -333,6 +335,98 @@ func c06Histories(r *SeqResult, thorough bool) {
 			if viol != "" && r.Violation == "" {
 				r.Violation = fmt.Sprintf("retained message %q: %s", name, viol)
 				r.Case = map[string]interface{}{"first": name, "steps": fmt.Sprint(sq)}
+			}
+		}
+	}
+}
+
+// c06Unmarshal: the application unmarshals the retained message into a struct and later
+// unmarshals a message of the same shape (other values) into the SAME struct value, without
+// zeroing it - for every slice- or pointer-carrying field shape (*diam.AVP, diam.AVP, []*diam.AVP,
+// the datatype itself, a pointer to it). The retained message must not change.
+func c06Unmarshal(r *SeqResult) {
+	c06Setup()
+	hdr := refcodec.Header{Version: 1, Flags: 0x80, Code: 777, App: 0, HbH: 1, E2E: 1}
+	type variant struct {
+		k    atoms.Kind
+		a, b atoms.Val
+	}
+	vars := []variant{
+		{atoms.KAddr, atoms.Val{K: atoms.KAddr, Fam: 1, S: []byte{10, 1, 2, 3}}, atoms.Val{K: atoms.KAddr, Fam: 1, S: []byte{10, 9, 9, 9}}},
+		{atoms.KOctet, atoms.Val{K: atoms.KOctet, S: []byte("octets-abcdef")}, atoms.Val{K: atoms.KOctet, S: []byte("OCTETS-UVWXYZ")}},
+		{atoms.KUTF8, atoms.Val{K: atoms.KUTF8, S: []byte("utf8-string")}, atoms.Val{K: atoms.KUTF8, S: []byte("UTF8-STRING")}},
+		{atoms.KIdent, atoms.Val{K: atoms.KIdent, S: []byte("host.example")}, atoms.Val{K: atoms.KIdent, S: []byte("peer.example")}},
+		{atoms.KTime, atoms.Val{K: atoms.KTime, U: 1700000000}, atoms.Val{K: atoms.KTime, U: 1800000000}},
+		{atoms.KU64, atoms.Val{K: atoms.KU64, U: 0x0102030405060708}, atoms.Val{K: atoms.KU64, U: 0x1112131415161718}},
+		{atoms.KU32, atoms.Val{K: atoms.KU32, U: 7}, atoms.Val{K: atoms.KU32, U: 2222}},
+		{atoms.KIPv4, atoms.Val{K: atoms.KIPv4, S: []byte{192, 168, 7, 9}}, atoms.Val{K: atoms.KIPv4, S: []byte{172, 16, 1, 1}}},
+	}
+	avpT := reflect.TypeOf(diam.AVP{})
+	for _, v := range vars {
+		d, ok := c06Alpha.Plain[v.k]
+		if !ok {
+			continue
+		}
+		mk := func(val atoms.Val, hbh uint32) []byte {
+			h := hdr
+			h.HbH = hbh
+			return refcodec.EncodeMessage(h, []refcodec.Node{{Code: d.Code, Flags: 0x40, Payload: val.Ref()}})
+		}
+		holder := reflect.TypeOf(v.a.Lib())
+		shapes := []struct {
+			name string
+			t    reflect.Type
+		}{
+			{"*diam.AVP", reflect.PtrTo(avpT)}, {"diam.AVP", avpT}, {"[]*diam.AVP", reflect.SliceOf(reflect.PtrTo(avpT))},
+			{holder.String(), holder}, {"*" + holder.String(), reflect.PtrTo(holder)},
+		}
+		for _, sh := range shapes {
+			st := reflect.StructOf([]reflect.StructField{{Name: "F", Type: sh.t, Tag: reflect.StructTag(fmt.Sprintf(`avp:"%s"`, d.Name))}})
+			var viol string
+			s := vs.Run(nil, false, 0, false, func() {
+				stream := append(append(mk(v.a, 1), mk(v.b, 2)...), mk(v.b, 3)...)
+				rd := bytes.NewReader(stream)
+				m1, err := diam.ReadMessage(rd, c06Dict.P)
+				if err != nil {
+					viol = "first message unreadable: " + err.Error()
+					return
+				}
+				snap, e := c06Take(m1)
+				if e != "" {
+					viol = e
+					return
+				}
+				dst := reflect.New(st)
+				if err := m1.Unmarshal(dst.Interface()); err != nil {
+					return // this holder shape is not supported for this type: nothing to retain
+				}
+				for j := 0; j < 2; j++ {
+					mk2, err := diam.ReadMessage(rd, c06Dict.P)
+					if err != nil {
+						viol = "follow-up unreadable: " + err.Error()
+						return
+					}
+					_ = mk2.Unmarshal(dst.Interface()) // the same struct value, not zeroed
+					now, e := c06Take(m1)
+					if e != "" {
+						viol = e
+						return
+					}
+					if !bytes.Equal(now.wire, snap.wire) || now.str != snap.str {
+						viol = fmt.Sprintf("the retained message changed after later message %d was unmarshalled into the struct value the retained one had been unmarshalled into: String() before %q, after %q", j+1, clip(snap.str), clip(now.str))
+						return
+					}
+				}
+			})
+			s.Teardown()
+			r.Cases++
+			r.Distinct++
+			if r.Sample == "" {
+				r.Sample = fmt.Sprintf("retain a message with %s, Unmarshal it into struct{ F %s }, then Unmarshal two later messages into the same struct value", d.Name, sh.name)
+			}
+			if viol != "" && r.Violation == "" {
+				r.Violation = fmt.Sprintf("retained message with %s, struct{ F %s `avp:%q` }: %s", d.Name, sh.name, d.Name, viol)
+				r.Case = map[string]interface{}{"avp": d.Name, "field": sh.name}
 			}
 		}
 	}
